@@ -537,7 +537,7 @@ class JGen(sg.Gen):
         if not tracked:
             return
         sid = rng.choice(tracked)
-        if rng.random() < 0.12:
+        if rng.random() < 0.25:
             # the emission switch (storage-event-control): joins must honour it too
             self.hist.append((sg.SEMIT, [sid, rng.choice([0, 0, 1])]))
             return
